@@ -16,6 +16,8 @@ def INCLUDE(name):
 
 
 def replay(ob):
+    if "rules.SlicesSplit" in ob["name"]:
+        return "import sys\nsys.path.insert(0, '/verif')\nfrom replay_lib.opt_native import main\nmain(['slices_split'])\n"
     n = ob["name"]
     if n.startswith("C09.ir_utils."):
         return HEAD + "main(['slice_unknown_dims', 'expand_unknown_dims'])\n"
